@@ -26,7 +26,7 @@ ASSUMPTIONS = [
     "maxnan missing values",
     "sums compared to 1e-11 x sum|v| (exact on the lattice), max / tail exactly",
 ]
-OBLIGATIONS = {"op0": 50, "op1": 50, "op2": 50, "op3": 50, "neg-values+max": 20,
+OBLIGATIONS = {"reuse-array": 100, "op0": 50, "op1": 50, "op2": 50, "op3": 50, "neg-values+max": 20,
                "nan-last-in-group+tail": 20, "whole-group-nan": 20, "single-group": 10,
                "n=1": 5, "extreme-index": 10, "reject:decreasing": 30,
                "flathomogen": 50, "goue": 20, "goue:transform": 5, "m2d:flat": 10, "m2d:cubic": 10,
@@ -189,6 +189,31 @@ def run_agg_case(ctx, case):
                                                     "sum_in": tot})
     if len(gr) >= 2 or nanany:
         ctx.nontrivial("agg", idx, v, op, maxnan)
+    # the same array object aggregated again with another operator, the first result
+    # kept by the caller: nothing of what was handed over or returned may change
+    vv = np.ascontiguousarray(v.copy())
+    ii = idx.astype(np.int32)
+    ctx.tag("reuse-array")
+    ctx.api("aggregate", 3)
+    try:
+        o1 = du.aggregate(ii, vv, operator=op, maxnan=maxnan)
+        keep = np.array(o1, dtype=float, copy=True)
+        o2 = du.aggregate(ii, vv, operator=(op + 1) % 4, maxnan=maxnan)
+        o3 = du.aggregate(ii, vv, operator=op, maxnan=maxnan)
+        ctx.check("agg.reuse.same-answer", same_result(o1, out) and same_result(o3, out),
+                  "aggregate|second-call-on-same-array-differs", case,
+                  lambda: {"first": np.asarray(o1)[:6], "third": np.asarray(o3)[:6],
+                           "fresh": out[:6]})
+        ctx.check("agg.reuse.result-kept", same_result(o1, keep),
+                  "aggregate|earlier-result-overwritten", case,
+                  lambda: {"kept": keep[:6], "now": np.asarray(o1)[:6]})
+        ctx.check("agg.reuse.input-kept", same_result(vv, v) and
+                  not np.shares_memory(np.asarray(o1), vv),
+                  "aggregate|input-overwritten-or-aliased", case,
+                  lambda: {"given": v[:6], "now": vv[:6]})
+    except Exception as e:
+        ctx.check("agg.reuse.same-answer", False, "aggregate|raises-on-reuse", case,
+                  {"exc": repr(e)})
     # the same numbers in another memory layout / container / index width
     prng = np.random.default_rng(digest(idx, v, op) % 2 ** 32)
     ctx.presentations("aggregate", lambda i_, v_: du.aggregate(i_, v_, operator=op,
